@@ -1,11 +1,11 @@
 (* C19 — acyclification realises sigma-separation.
    Unbounded: acy_nodes_edges, acy_acyclic, acy_idempotent_on_acyclic, sigma_sep_dec_reflects.
-   Unbounded, one direction of the sigma clause: msep_acy_implies_sigma_sep.
-   Bounded by kernel computation (both directions): sigma_equiv_bounded_3 (ALL directed mixed graphs on <= 3 nodes) and
+   Unbounded: sigma_equiv (the sigma clause itself, path definitions on both sides), its two directions, sigma_equiv_dec.
+   Additionally, independently, by kernel computation: sigma_equiv_bounded_3 (ALL directed mixed graphs on <= 3 nodes) and
    sigma_equiv_bounded_4_le2_bidirected (4 nodes, all 4096 directed layers x all 22 bidirected layers with <= 2 edges). *)
 From Coq Require Import List Arith.
 From PG Require Import Base.ListSet Graph.MGraph Graph.MSep C19.Model C19.Spec C19.Proofs C19.SigmaDec C19.Bounded
-  C19.Bounded_n3 C19.Bounded_n4 C19.SigmaWalk.
+  C19.Bounded_n3 C19.Bounded_n4 C19.SigmaWalk C19.SigmaConv C19.SigmaConv2.
 Import ListNotations.
 
 (* the model's edges are exactly the property's characterisation (strongly connected component = mutual reachability) *)
@@ -44,12 +44,33 @@ Theorem sigma_equiv_bounded_4_le2_bidirected : forall d b X Y Z,
 Proof. exact sigma_equiv_bounded_4_le2_bidirected_prop_proof. Qed.
 Print Assumptions sigma_equiv_bounded_4_le2_bidirected.
 
-(* UNBOUNDED, one direction: a sigma-connecting path of g yields an open walk, hence an m-connecting path, of the acyclification *)
+(* UNBOUNDED: the sigma clause of the property, path definitions on both sides (Forre-Mooij 2017 / Mooij-Claassen 2020, Prop. A.19):
+   m-separation in the acyclification <-> every path between X and Y is sigma-blocked by Z, for ALL directed mixed graphs *)
+Theorem sigma_equiv : sigma_equiv_stmt.
+Proof. exact C19.SigmaConv.sigma_equiv_proof. Qed.
+Print Assumptions sigma_equiv.
+
+(* its two directions (only X # Y is needed): a sigma-connecting path of g yields an open walk, hence (acyclic graph) an
+   m-connecting path, of the acyclification; an m-connecting path of the acyclification yields a sigma-open walk of g, hence
+   (loop removal without acyclicity) a sigma-connecting path *)
 Theorem msep_acy_implies_sigma_sep : forall g X Y Z, wf g -> U g = [] -> incl X (V g) -> incl Z (V g) ->
   (forall a, In a X -> ~ In a Y) ->
   msep (acy_model g) X Y Z -> sigma_sep g X Y Z.
 Proof. exact C19.SigmaWalk.msep_acy_implies_sigma_sep. Qed.
 Print Assumptions msep_acy_implies_sigma_sep.
+
+Theorem sigma_sep_implies_msep_acy : forall g X Y Z, wf g -> U g = [] -> incl X (V g) -> incl Z (V g) ->
+  (forall a, In a X -> ~ In a Y) ->
+  sigma_sep g X Y Z -> msep (acy_model g) X Y Z.
+Proof. exact C19.SigmaConv.sigma_sep_implies_msep_acy. Qed.
+Print Assumptions sigma_sep_implies_msep_acy.
+
+(* the same for the boolean oracles run by the harness *)
+Theorem sigma_equiv_dec : forall g X Y Z, wf g -> U g = [] -> incl X (V g) -> incl Y (V g) -> incl Z (V g) ->
+  (forall a, In a X -> ~ In a Y /\ ~ In a Z) -> (forall a, In a Y -> ~ In a Z) ->
+  msep_dec (acy_model g) X Y Z = sigma_sep_dec g X Y Z.
+Proof. exact C19.SigmaConv2.sigma_equiv_dec_proof. Qed.
+Print Assumptions sigma_equiv_dec.
 
 (* the enumeration covers the class: every edge set over 0..n-1 is, as a set, the edge set of an enumerated graph *)
 Theorem cyc_enumeration_complete : forall n (D0 B0 : list (nat * nat)),
